@@ -93,7 +93,8 @@ URL_IN_HTML_BINARY_RE = re.compile(URL_IN_HTML_BINARY, re.I)
 
 # NOTE: "&amp;" (or "&amp%3B") is a common misspelling of "&"
 QUERY_VALUE_IN_URL_TEMPLATE = r"(?:^|[?&](?:amp(?:;|%%3B))?)(%s)=([^&]+)"
-QUERY_VALUE_TEMPLATE = r"%s=([^&#]+)"
+# NOTE: the key must be a whole key ("rev=1" is not "v=1"); ";" stands for "&amp;"
+QUERY_VALUE_TEMPLATE = r"(?:^|[?&;])%s=([^&#]+)"
 
 # NOTE: the userinfo cannot contain "/", "?" or "#" and the host ends at the
 # first ":", "/", "?" or "#" (%s must therefore not match those either), a ":"
